@@ -267,6 +267,13 @@ def node_order(M: Model, it: ast.expr, loop: ast.AST | None = None, depth: int =
         if fn in ("list", "tuple", "iter") and not it.keywords:
             return node_order(M, it.args[0], loop, depth + 1)
         if fn == "sorted":
+            from .c17_carried import component_key
+
+            kw = {k.arg: k.value for k in it.keywords}
+            if set(kw) <= {"key", "reverse"} and component_key(kw.get("key")) and (kw.get("reverse") is None or (isinstance(kw["reverse"], ast.Constant) and isinstance(kw["reverse"].value, bool))):
+                # component-wise order: a parent's component list is a proper prefix of its sub module's, so it sorts first
+                o = "descendants-first" if kw.get("reverse") is not None and kw["reverse"].value else "ancestors-first"
+                return o if node_order(M, it.args[0], loop, depth + 1) is not None else None
             return by_key.get(_sorted_order(M, it.keywords, False) or "") if node_order(M, it.args[0], loop, depth + 1) is not None else None
         if fn == "reversed" and not it.keywords:
             return flip.get(node_order(M, it.args[0], loop, depth + 1) or "")
